@@ -95,6 +95,19 @@ KINDS = {
     'dir_block':       (['>>> # xdoctest: +REQUIRES(nosuchkind:zzz)', '>>> q = 1'], 0, None),
     'import_error':    ([">>> print('never runs')"], None, None),
 }
+# a helper of r lines whose last line raises, called by a one-line statement that has its own want of w lines
+# (the raising line number inside the helper falls at or beyond the end of the failing part's source lines)
+for _r in (2, 3, 4, 6):
+    for _w in (1, 2, 3):
+        _blk = ['>>> def hw(v):'] + ['...     v = v + {}'.format(j) for j in range(_r - 2)] + ["...     raise LookupError('in helper')",
+                                                                                                  ">>> print('mid')", 'mid', '>>> hw(1)']
+        _idx = len(_blk) - 1
+        _blk += ['expected line {}'.format(j) for j in range(_w)]
+        KINDS['helper_want_r{}_w{}'.format(_r, _w)] = (_blk, _idx, ['LookupError'])
+
+LEVEL_TEXT = LEVEL_TEXT.replace('26 failure kinds', '{} failure kinds'.format(len(KINDS))).replace(
+    'that is longer or shorter than the failing part,', 'that is longer or shorter than the failing part (the failing call with and without a want of its own),')
+
 PRE = {
     'stmt': ['>>> a{k} = {k}'],
     'stmt_want': [">>> print('pre{k}')", 'pre{k}'],
